@@ -308,6 +308,11 @@ func (p LinearPacer) Pace(elapsed time.Duration, hits uint64) (time.Duration, bo
 	}
 
 	rate := p.Rate(elapsed)
+	if rate <= 0 {
+		// A negative slope has brought the rate down to zero: all hits of
+		// the schedule have been sent, so stop the attack.
+		return 0, true
+	}
 	interval := math.Round(1e9 / rate)
 
 	if n := uint64(interval); n != 0 && math.MaxInt64/n < hits {
@@ -317,6 +322,10 @@ func (p LinearPacer) Pace(elapsed time.Duration, hits uint64) (time.Duration, bo
 
 	delta := float64(hits+1) - expectedHits
 	wait := time.Duration(interval * delta)
+	if p.Slope < 0 && p.Rate(elapsed+wait) < 0 {
+		// The rate reaches zero before the next hit is due, so it never is.
+		return 0, true
+	}
 
 	return wait, false
 }
@@ -341,6 +350,12 @@ func (p LinearPacer) hits(t time.Duration) float64 {
 	a := p.Slope
 	b := p.StartAt.hitsPerNs() * 1e9
 	x := t.Seconds()
+
+	if a < 0 && x > -b/a {
+		// With a negative slope the rate reaches zero at -b/a seconds and no
+		// hits are added (let alone removed) from then on.
+		x = -b / a
+	}
 
 	return (a*math.Pow(x, 2))/2 + b*x
 }
